@@ -413,7 +413,24 @@ pub fn inject_fault(rng: &mut Rng, g: &mut Generated) -> (&'static str, String) 
 pub fn inject_loop(rng: &mut Rng, g: &mut Generated) -> (&'static str, String) {
     let at = rng.below(g.stmts.len() as u64 + 1) as usize;
     let assigned = assigned_names(g);
-    match rng.below(8) {
+    match rng.below(10) {
+        8 | 9 => {
+            // a ring of 3 to 20 wires or constants whose names are in no particular order, declared in any order
+            let n = rng.range(3, 20) as usize;
+            let consts = rng.chance(1, 3);
+            let mut ids: Vec<usize> = (0..n).collect();
+            for i in (1..n).rev() { let j = rng.below(i as u64 + 1) as usize; ids.swap(i, j); }
+            let name = |k: usize| if consts { format!("RK{:02}", ids[k]) } else { format!("rw{:02}", ids[k]) };
+            let mut order: Vec<usize> = (0..n).collect();
+            for i in (1..n).rev() { let j = rng.below(i as u64 + 1) as usize; order.swap(i, j); }
+            let mut text = String::new();
+            for &k in &order {
+                if consts { text.push_str(&format!("const {} = {} + 1; ", name(k), name((k + 1) % n))); }
+                else { text.push_str(&format!("wire {}:8; {} = {} + 1; ", name(k), name(k), name((k + 1) % n))); }
+            }
+            g.stmts.insert(at, Stmt::Raw(text));
+            (if consts { "const-ring" } else { "wire-ring" }, name(0))
+        }
         0 => { g.stmts.insert(at, Stmt::Raw("wire la:8; la = la + 1;".into())); ("self-loop", "la".into()) }
         1 => { g.stmts.insert(at, Stmt::Raw("wire la:8, lb:8; la = lb ^ 1; lb = [la == 0 : 3; 1 : la];".into())); ("two-loop", "la".into()) }
         2 => { g.stmts.insert(at, Stmt::Raw("wire la:8, lb:8, lc:1; la = lb; lb = (lc .. la[0..7]); lc = la in { 1, 2 };".into())); ("three-loop", "la".into()) }
